@@ -7,6 +7,7 @@
 
 #include <functional>
 #include <map>
+#include <optional>
 
 namespace rsgen {
 using rsast::K; using rsast::Node; using rsast::mk; using rsast::mkidx; using rsast::leaf; using rsast::integer;
@@ -26,7 +27,7 @@ struct EnvChecker {
   const Context& contextFor(const Env& env) const {
     const std::string k = envKey(env);
     auto it = extended.find(k);
-    if (it == extended.end()) { Context c2 = ctx; for (auto& [name, ty] : env) { rssem::Global g; g.type = ETy::T(ty); c2.globals["\x01" + name] = g; } it = extended.emplace(k, std::move(c2)).first; }
+    if (it == extended.end()) { if (extended.size() > 400) extended.clear(); Context c2 = ctx; for (auto& [name, ty] : env) { rssem::Global g; g.type = ETy::T(ty); c2.globals["\x01" + name] = g; } it = extended.emplace(k, std::move(c2)).first; }
     return it->second;
   }
   static Node rename(const Env& env, const Node& x) { Node r = x; if (r.k == K::Local) { for (auto& e : env) if (e.first == r.text) { r.k = K::Global; r.text = "\x01" + e.first; } } for (auto& ch : r.ch) ch = rename(env, ch); return r; }
@@ -39,6 +40,7 @@ class Generator {
   std::vector<Node> leaves;                    // closed leaves (globals, literals)
   std::vector<std::string> varNames{ "a", "b", "c", "d" };
   size_t repsPerKey{ 2 };
+  bool bothDeep{ true };    // depth 2: binary constructors with BOTH operands non-leaf (false: at most one operand is non-leaf)
   size_t bodyReps{ 3 };     // representatives per (constructor, type) kept in binder bodies
   EnvChecker checker;
   mutable std::map<std::string, std::pair<std::vector<Typed>, std::vector<Typed>>> bodyCache;
@@ -118,8 +120,8 @@ class Generator {
     // binary term operators, predicates
     for (K k : { K::Plus, K::Minus, K::Mult, K::Union, K::Intersect, K::SetMinus, K::SymMinus, K::Decart,
                  K::Gr, K::Ls, K::Ge, K::Le, K::Eq, K::Ne, K::In, K::NotIn, K::Subset, K::SubsetEq, K::NotSubset })
-      for (auto& a : S) for (auto& b : S) if (isTerm(a) && isTerm(b)) consider(mk(k, { a.node, b.node }));
-    for (auto& a : S) for (auto& b : S) { consider(mk(K::Tuple, { a.node, b.node })); consider(mk(K::Enumeration, { a.node, b.node })); }
+      for (auto& a : S) for (auto& b : S) if (isTerm(a) && isTerm(b) && (bothDeep || a.node.ch.empty() || b.node.ch.empty())) consider(mk(k, { a.node, b.node }));
+    for (auto& a : S) for (auto& b : S) if (bothDeep || a.node.ch.empty() || b.node.ch.empty()) { consider(mk(K::Tuple, { a.node, b.node })); consider(mk(K::Enumeration, { a.node, b.node })); }
     // unary
     for (auto& a : S) {
       for (K k : { K::Boolean, K::Card, K::Bool, K::Debool, K::Reduce }) consider(mk(k, { a.node }));
@@ -128,6 +130,7 @@ class Generator {
     }
     // filters: Fi1[P](A), Fi2[P](A), Fi1,2[P,Q](A), Fi1,2[P](A)
     for (auto& a : S) for (auto& p : S) {
+      if (!bothDeep && !a.node.ch.empty() && !p.node.ch.empty()) continue;
       consider(mkidx(K::Filter, { 1 }, { p.node, a.node })); consider(mkidx(K::Filter, { 2 }, { p.node, a.node })); consider(mkidx(K::Filter, { 1, 2 }, { p.node, a.node }));
     }
     // two-parameter filters: all three operands vary together only over childless operands; otherwise one operand varies
@@ -148,7 +151,7 @@ class Generator {
     }
     // logic
     for (auto& f : L) consider(mk(K::Not, { f.node }));
-    for (K k : { K::Equiv, K::Impl, K::Or, K::And }) for (auto& a : L) for (auto& b : L) consider(mk(k, { a.node, b.node }));
+    for (K k : { K::Equiv, K::Impl, K::Or, K::And }) for (auto& a : L) for (auto& b : L) if (bothDeep || &a == &L[0] || &b == &L[0]) consider(mk(k, { a.node, b.node }));
   }
 
   // sub-term pool available as bodies in an (extended) environment: leaves + variables, plus one level of constructors over them
@@ -157,6 +160,7 @@ class Generator {
     auto hit = bodyCache.find(key);
     if (hit != bodyCache.end()) { Pool p; p.S = hit->second.first; p.L = hit->second.second; return p; }
     Pool res = bodiesUncached(env, binderDepthLeft);
+    if (bodyCache.size() > 400) bodyCache.clear();        // bounded memory: deep spaces reach thousands of distinct environments
     bodyCache[key] = { res.S, res.L };
     return res;
   }
@@ -219,6 +223,21 @@ class Generator {
     rec(Frame{});
   }
 
+  // Representatives of depth 1 (leaves + repsPerKey well-typed terms per (constructor, arity, type)), computed once by streaming -
+  // call it in the parent process before forking so that the workers share it.
+  mutable std::optional<Pool> depth2Pool;
+  void prepareDepth2() const {
+    const Env env; Pool l0 = level0(env); Pool r = l0; std::map<std::string, size_t> seen;
+    stream(env, l0.S, l0.L, 2, [&](Node&& n) {
+      auto res = checkIn(ctx, env, n);
+      if (!res.ok) return;
+      const std::string key = rsast::nodeLabel(n) + "#" + std::to_string(n.ch.size()) + ":" + res.type.str();
+      if (seen[key]++ >= repsPerKey) return;
+      (res.type.logic ? r.L : r.S).push_back({ std::move(n), res.type });
+    });
+    depth2Pool = std::move(r);
+  }
+
   // The bounded space of closed expressions, streamed:  level 0 leaves, depth 1 over all leaves,
   // depth 2 over leaves + representatives of depth 1 (repsPerKey per (constructor, arity, type)).
   template <class Sink>
@@ -229,9 +248,8 @@ class Generator {
     if (depth < 1) return;
     stream(env, l0.S, l0.L, 2, sink);
     if (depth >= 2) {
-      Level l1 = over(env, l0.S, l0.L, 2);
-      Pool p = l0; for (auto& t : l1.ok) (t.type.logic ? p.L : p.S).push_back(t);
-      Pool r = reps(p, repsPerKey);
+      if (!depth2Pool.has_value()) prepareDepth2();
+      const Pool& r = *depth2Pool;
       // only candidates with at least one non-leaf operand are new at depth 2
       stream(env, r.S, r.L, 2, [&](Node&& n) {
         bool deep = false;
